@@ -1,10 +1,10 @@
-SPECIFICATION FairSpec
+SPECIFICATION Spec
 CONSTANTS
   Ctxs = 2
   JobsPer = 2
   Workers = 2
   Size <- SizeSmall
   StartInJob = FALSE
-  DestroyWaits = TRUE
-PROPERTIES Terminates
+  DestroyWaits = FALSE
+INVARIANTS NoUseAfterDestroy
 CHECK_DEADLOCK FALSE
